@@ -1,6 +1,7 @@
 import OomdProofs.EngineC05
 import OomdProofs.EngineRun
 import OomdProps.C02
+import OomdProps.C17
 
 /-!
 # C05 — Post-action delay
@@ -140,5 +141,20 @@ example : (∀ i ∈ cexHist, Protocol i.sc) ∧ ({} : RsState).overrode = false
   · split at h <;> simp at h
   · split at h <;> simp_all
   · split at h <;> simp_all
+
+/-! ### the `Protocol` hypothesis is met by the kill plugins
+
+The theorems above assume `Protocol`: a plugin overrides its ruleset's delay only right before it returns STOP.  For the
+model of `BaseKillPlugin::run` (every kill plugin, every configuration including `always_continue`, every tree, ranking and
+environment) that is a theorem; the real plugins are held to it by the `killproto` pass of this check (h_kill). -/
+
+/-- `BaseKillPlugin::run` calls `pause_actions` only in an invocation that returns STOP, and then with its own
+`post_action_delay` - never when it returns CONTINUE (failed kill, or `always_continue`) or ASYNC_PAUSED. -/
+theorem kill_plugin_keeps_protocol (cfg : OomdModel.Kill.KillCfg) (rank : List OomdModel.Kill.View → List OomdModel.Kill.View)
+    (h : OomdModel.Kill.RankOK rank) (roots : List OomdModel.Kill.View) (env : OomdModel.Kill.Env) (d : Nat)
+    (hp : OomdModel.Kill.Ev.pause d ∈ (OomdModel.Kill.runKill cfg rank roots env).evs) :
+    (OomdModel.Kill.runKill cfg rank roots env).val = .stop ∧ cfg.postActionDelay = some d :=
+  let r := (C17.pause_iff_stop cfg rank h roots env d).1 hp
+  ⟨r.1, r.2.2⟩
 
 end C05
